@@ -1571,6 +1571,15 @@ def metacall():
                 # System Predicate string
                 return Predicate.System(arg)
 
+        if cls is Predicate and spec:
+            # System Predicate coords. These can not be constructed anew once
+            # they are evicted from the cache.
+            coords = spec[0] if len(spec) == 1 else spec
+            if isinstance(coords, tuple) and coords and isinstance(coords[0], int) and coords[0] < 0:
+                for pred in Predicate.System:
+                    if pred.spec == coords[0:3]:
+                        return pred
+
         # Invoked class name.
         clsname = cls.__name__
         
